@@ -1,18 +1,29 @@
 package main
 
 import (
+	"encoding/json"
 	"fmt"
 	"os"
 	"time"
 
 	"github.com/cometbft/cometbft/abci/types"
 
+	roothashState "github.com/oasisprotocol/oasis-core/go/consensus/cometbft/apps/roothash/state"
+	schedulerState "github.com/oasisprotocol/oasis-core/go/consensus/cometbft/apps/scheduler/state"
+
 	"verif/harness/internal/chain"
 )
 
 func main() {
 	k := chain.NewKeys(3, 1, 3)
-	doc, err := chain.Genesis(k, chain.GenesisOptions{})
+	var o chain.GenesisOptions
+	if j := os.Getenv("VERIF_PROBE_OPTS"); j != "" {
+		if err := json.Unmarshal([]byte(j), &o); err != nil {
+			fmt.Println("opts:", err)
+			os.Exit(1)
+		}
+	}
+	doc, err := chain.Genesis(k, o)
 	if err != nil {
 		fmt.Println("genesis:", err)
 		os.Exit(1)
@@ -42,6 +53,20 @@ func main() {
 		b := &chain.Block{Proposer: n.Vals[0].Address(), Votes: votes, Time: chain.GenesisTime.Add(time.Duration(h+1) * time.Second)}
 		t0 = time.Now()
 		r := n.Exec(b, chain.PathPropose, nil)
+		if o.Runtime {
+			t := n.Tree()
+			cs, err := schedulerState.NewImmutableState(t).AllCommittees(chain.Ctx)
+			for _, c := range cs {
+				fmt.Printf("   committee %s rt=%s valid_for=%d members=%d\n", c.Kind, c.RuntimeID, c.ValidFor, len(c.Members))
+			}
+			rs, err2 := roothashState.NewImmutableState(t).RuntimeState(chain.Ctx, chain.RuntimeID())
+			if err2 == nil {
+				fmt.Printf("   runtime state: round=%d suspended=%v committee=%v\n", rs.LastBlock.Header.Round, rs.Suspended, rs.Committee != nil)
+			} else {
+				fmt.Println("   runtime state:", err, err2)
+			}
+			t.Close()
+		}
 		fmt.Printf("height %d: %v accepted=%v panic=%q apphash=%x txs=%d updates=%d\n", n.Height, time.Since(t0), r.Accepted, r.Panic, r.AppHash, len(r.TxResults), len(r.ValidatorUpdates))
 	}
 	d, err := n.Dump()
